@@ -59,7 +59,7 @@ add("C10", "proof",
     "Lean 4 lemmas over a regenerated call-site inventory + exhaustive fault enumeration against the implementation", "DESIGN.md §6 C10")
 
 add("C11", "proof",
-    "Theorem truncated_rejected_partial: for every file in which PAR1 occurs only at its two ends, every strict prefix is rejected by the reader model at open time (trailing magic is checked before the footer length is trusted); the full statement is false for any reader (a value may hold a complete trailer): that crafted input is a known finding. Tie: EVERY strict prefix of files of five structs x three codecs plus crafted files is opened and iterated by the generated reader; accept/reject per prefix length must equal the reader model's; the NoInnerMagic hypothesis is evaluated on every file.",
+    "Theorem accepted_has_trailer: whatever bytes the reader model is given, if it accepts them at open time they end with a complete trailer (magic, length, decodable footer), so the only strict prefixes that can be accepted are those that are complete files up to a footer of their own; theorem truncated_rejected_partial: for every file in which PAR1 occurs only at its two ends, every strict prefix is rejected by the reader model at open time (trailing magic is checked before the footer length is trusted); the full statement is false for any reader (a value may hold a complete trailer): that crafted input is a known finding. Tie: EVERY strict prefix of files of five structs x three codecs plus crafted files is opened and iterated by the generated reader; accept/reject per prefix length must equal the reader model's; the NoInnerMagic hypothesis is evaluated on every file.",
     PROOF_NOTE, "Lean 4 theorem under an explicit decidable hypothesis + exhaustive prefix enumeration", "DESIGN.md §6 C11")
 
 add("C04", "proof",
@@ -74,7 +74,7 @@ add("C18", "proof",
 
 add("C16", "proof",
     "Theorem introspection_runWriter: for every file the writer model produces, ReadMetaData is the footer the independent parser decodes and PageHeaders is exactly one header per data page in file order with the walked counts and sizes; at_zero_one_header, meta_is_footer. Lean mirrors of ReadMetaData / PageHeaders / PageHeadersAtOffset are compared field by field with the Go functions and with the independent walk of PQ.parseFile (from every page start: the shortest run of headers covering n, exactly one for n = 0) on files with page headers from a few dozen bytes to > 128 KiB.",
-    PROOF_NOTE + " PageHeadersAtOffset for n > 0 beyond the first header is decided by the correspondence and the walk, not by a theorem.",
+    PROOF_NOTE + " PageHeadersAtOffset started at a page that is not the first of its chunk is decided by the correspondence and the walk; from a chunk start the covering statement is a theorem (pageHeadersAt_chunk_cover).",
     "Lean 4 mirrors + independent walk as oracle", "DESIGN.md §6 C16")
 
 add("C13", "proof",
